@@ -278,10 +278,11 @@ def walk_table():
                         real = SC.SchemaAnalyzer._walk_properties
                         rec = []
 
-                        def stub(properties, parents=None, subfields=False, _first=[True], real=real, an=an, rec=rec):
+                        def stub(properties, parents=None, subfields=False, *more, _first=[True], real=real, an=an, rec=rec, **kw):
+                            # extra parameters a refactoring may add to the walk are passed through untouched
                             if _first[0]:
                                 _first[0] = False
-                                return real(an, properties, parents, subfields)
+                                return real(an, properties, parents, subfields, *more, **kw)
                             rec.append((properties, parents, subfields))
                             return iter([("REC", len(rec) - 1)])
                         an._walk_properties = stub
